@@ -1,0 +1,212 @@
+//go:build verif
+
+// Contracts for package gots (pts.go, pcr.go, tsutils.go), checked by /verif/engine (govc).
+// This file is compiled only with the build tag "verif"; it adds no code to normal builds.
+// Spec functions below state the ISO/IEC 13818-1 bit layouts arithmetically, independently
+// of the shift/mask formulation used by the implementation.
+
+package gots
+
+// ---------------------------------------------------------------- C15: PTS arithmetic
+
+const (
+	specTicks  = 8589934592 // 2^33
+	specWindow = 162000000  // 30 minutes of 90 kHz ticks
+)
+
+func specFinite(p PTS) bool { return uint64(p) < specTicks }
+
+// specRolled: p lies in the first 30 minutes and q in the last 30 minutes of the timeline.
+func specRolled(p, q PTS) bool {
+	return uint64(p) < specWindow && uint64(q) > specTicks-1-specWindow
+}
+
+func specSentinel(p PTS) bool { return p == PtsNegativeInfinity || p == PtsPositiveInfinity }
+
+//@ func (p PTS) RolledOver(other PTS) bool
+//@   props C15
+//@   ensures result == (!specSentinel(other) && specRolled(p, other))
+//@   modifies nothing
+
+//@ func (p PTS) After(other PTS) bool
+//@   props C15
+//@   ensures other == PtsPositiveInfinity ==> !result
+//@   ensures other == PtsNegativeInfinity ==> result
+//@   ensures !specSentinel(other) ==> result == (specRolled(p, other) || (!(specRolled(other, p) && !specSentinel(p)) && p > other))
+//@   modifies nothing
+
+//@ func (p PTS) GreaterOrEqual(other PTS) bool
+//@   props C15
+//@   ensures specFinite(p) && specFinite(other) ==> result == (p == other || specRolled(p, other) || (!specRolled(other, p) && p > other))
+//@   modifies nothing
+
+//@ func (p PTS) DurationFrom(from PTS) uint64
+//@   props C15
+//@   ensures specFinite(p) && specFinite(from) && specRolled(p, from) ==> result == specTicks - uint64(from) + uint64(p)
+//@   ensures specFinite(p) && specFinite(from) && specRolled(from, p) ==> result == specTicks - uint64(p) + uint64(from)
+//@   ensures specFinite(p) && specFinite(from) && !specRolled(p, from) && !specRolled(from, p) && p < from ==> result == uint64(from) - uint64(p)
+//@   ensures specFinite(p) && specFinite(from) && !specRolled(p, from) && !specRolled(from, p) && p >= from ==> result == uint64(p) - uint64(from)
+//@   modifies nothing
+
+//@ func (p PTS) Add(x PTS) PTS
+//@   props C15
+//@   ensures uint64(result) == (uint64(p)+uint64(x)) % specTicks
+//@   modifies nothing
+
+// Every clause of the property statement as a lemma over the five contracts above.
+
+func lemmaPTSAdd(p, d PTS) bool {
+	q := p.Add(d)
+	wrapped := uint64(p)+uint64(d) >= specTicks
+	return uint64(q) == (uint64(p)+uint64(d))%specTicks &&
+		q.After(p) && !p.After(q) &&
+		q.RolledOver(p) == wrapped &&
+		q.DurationFrom(p) == uint64(d) && p.DurationFrom(q) == uint64(d)
+}
+
+//@ func lemmaPTSAdd(p PTS, d PTS) bool
+//@   props C15
+//@   requires specFinite(p) && 1 <= d && d <= specWindow
+//@   ensures result
+
+func lemmaPTSRolledOver(p, q PTS) bool {
+	return p.RolledOver(q) == (uint64(p) < 162000000 && uint64(q) > 8589934591-162000000)
+}
+
+//@ func lemmaPTSRolledOver(p PTS, q PTS) bool
+//@   props C15
+//@   requires specFinite(p) && specFinite(q)
+//@   ensures result
+
+func lemmaPTSOrder(p, q PTS) bool {
+	pq, qp := p.After(q), q.After(p)
+	n := 0
+	if pq {
+		n++
+	}
+	if qp {
+		n++
+	}
+	if p == q {
+		n++
+	}
+	return !p.After(p) && !(pq && qp) && n == 1 &&
+		p.GreaterOrEqual(q) == (pq || p == q) &&
+		p.DurationFrom(q) == q.DurationFrom(p) &&
+		(p.DurationFrom(q) == 0) == (p == q)
+}
+
+//@ func lemmaPTSOrder(p PTS, q PTS) bool
+//@   props C15
+//@   requires specFinite(p) && specFinite(q)
+//@   ensures result
+
+func lemmaPTSSentinels(p PTS) bool {
+	return p.After(PtsNegativeInfinity) && !p.After(PtsPositiveInfinity)
+}
+
+//@ func lemmaPTSSentinels(p PTS) bool
+//@   props C15
+//@   requires specFinite(p)
+//@   ensures result
+
+// ---------------------------------------------------------------- C04: PCR and PTS/DTS codecs
+
+// program_clock_reference_base: 33 bits, b[0] .. b[3] and the top bit of b[4].
+func specPCRBase(b []byte) uint64 {
+	return uint64(b[0])*33554432 + uint64(b[1])*131072 + uint64(b[2])*512 + uint64(b[3])*2 + uint64(b[4])/128
+}
+
+// program_clock_reference_extension: 9 bits, the low bit of b[4] and b[5].
+func specPCRExt(b []byte) uint64 { return uint64(b[4]%2)*256 + uint64(b[5]) }
+
+// PTS/DTS: '0010' PTS[32..30] m PTS[29..15] m PTS[14..0] m  (5 bytes, m = marker_bit).
+func specPTS(b []byte) uint64 {
+	return uint64(b[0]/2%8)*1073741824 + uint64(b[1])*4194304 + uint64(b[2]/2)*32768 + uint64(b[3])*128 + uint64(b[4]/2)
+}
+
+//@ func ExtractPCR(bytes []byte) uint64
+//@   props C04
+//@   requires len(bytes) >= 6
+//@   ensures result == specPCRBase(bytes)*300 + specPCRExt(bytes)
+//@   modifies nothing
+
+//@ func InsertPCR(b []byte, pcr uint64)
+//@   props C04
+//@   requires len(b) >= 6
+//@   ensures specPCRBase(b) == (pcr/300) % specTicks
+//@   ensures specPCRExt(b) == pcr % 300
+//@   ensures b[4]&0x7e == 0x7e
+//@   modifies b[0..6]
+
+//@ func ExtractTime(bytes []byte) uint64
+//@   props C04
+//@   requires len(bytes) >= 5
+//@   ensures result == specPTS(bytes)
+//@   modifies nothing
+
+//@ func InsertPTS(b []byte, pts uint64)
+//@   props C04
+//@   requires len(b) >= 5
+//@   ensures specPTS(b) == pts % specTicks
+//@   ensures b[0]&0x01 == 0x01 && b[2]&0x01 == 0x01 && b[4]&0x01 == 0x01
+//@   ensures b[0]&0xf0 == 0x20
+//@   modifies b[0..5]
+
+func lemmaPCRRoundTrip(b []byte, pcr uint64) bool {
+	InsertPCR(b, pcr)
+	return ExtractPCR(b) == pcr
+}
+
+//@ func lemmaPCRRoundTrip(b []byte, pcr uint64) bool
+//@   props C04
+//@   requires len(b) >= 6 && pcr < specTicks*300
+//@   ensures result
+//@   modifies b[0..6]
+
+func lemmaPTSRoundTrip(b []byte, pts uint64) bool {
+	InsertPTS(b, pts)
+	return ExtractTime(b) == pts
+}
+
+//@ func lemmaPTSRoundTrip(b []byte, pts uint64) bool
+//@   props C04
+//@   requires len(b) >= 5 && pts < specTicks
+//@   ensures result
+//@   modifies b[0..5]
+
+// Decoding depends only on the value bits: reserved (PCR) and marker/prefix (PTS) bits are ignored.
+func specPCRValueMask(j int) byte {
+	if j == 4 {
+		return 0x81
+	}
+	return 0xff
+}
+
+func specPTSValueMask(j int) byte {
+	switch j {
+	case 0:
+		return 0x0e
+	case 2, 4:
+		return 0xfe
+	}
+	return 0xff
+}
+
+func lemmaPCRReservedBits(a, b []byte) bool { return ExtractPCR(a) == ExtractPCR(b) }
+
+//@ func lemmaPCRReservedBits(a []byte, b []byte) bool
+//@   props C04
+//@   requires len(a) >= 6 && len(b) >= 6
+//@   requires forall j in 0..6 :: a[j]&specPCRValueMask(j) == b[j]&specPCRValueMask(j)
+//@   ensures result
+//@   modifies nothing
+
+func lemmaPTSMarkerBits(a, b []byte) bool { return ExtractTime(a) == ExtractTime(b) }
+
+//@ func lemmaPTSMarkerBits(a []byte, b []byte) bool
+//@   props C04
+//@   requires len(a) >= 5 && len(b) >= 5
+//@   requires forall j in 0..5 :: a[j]&specPTSValueMask(j) == b[j]&specPTSValueMask(j)
+//@   ensures result
+//@   modifies nothing
